@@ -20,7 +20,16 @@ from common import nets, nets_g
 ID = 'C13'
 N = {'quick': 700, 'thorough': 30000}
 LEAN_MODULES = ['GnpyProofs.Props.C13']
-THEOREMS = [f'Gnpy.Verdict.{t}' for t in ()]
+THEOREMS = [f'Gnpy.Verdict.{t}' for t in (
+    'updateSnr_formula', 'linSum_spec', 'updateSnr_raw', 'updateSnr_twice', 'updateSnr_history_free',
+    'roadmOsnr_length', 'tx_and_adddrop_once', 'loopArgs_spec',
+    'penalty_below_blocks', 'penalty_above_blocks', 'penalty_inside_finite', 'penalty_segment', 'totalPenalty_inf',
+    'penalty_outside_blocks', 'minMetric_spec', 'penalty_normalised',
+    'passFixed_iff', 'passAuto_iff', 'verdict_iff', 'verdict_margin', 'fixedReason_spec',
+    'selectMode_spec', 'none_feasible_reason', 'autoReason_spec',
+    'selectMode_fails_current', 'selectMode_current_accepts_infeasible')] + [
+    'Gnpy.HE.rintR_mono', 'Gnpy.HE.abs_rintR_sub_le', 'Gnpy.HE.round2_mono', 'Gnpy.HE.abs_round2_sub_le',
+    'Gnpy.HE.round2_grid', 'Gnpy.Verdict.modeOrder_sorted', 'Gnpy.Verdict.mem_modeOrder']
 RULE = ('one PRNG; kinds: trx (25 %: random received spectra, 1-5 successive update_snr calls with None/scalar/array '
         'contributions, penalty tables around the impairment values, inside and outside), loader (15 %: raw penalty '
         'lists unsorted / without zero / with non-positive boundaries), path (60 %: line networks of 2-3 ROADM sites '
